@@ -13,7 +13,8 @@ from mc.core import CACHE_DIR, VERIF, Ctx, HarnessError
 #: checks whose quick tier is re-run wholesale under bounds checking
 WHOLESALE_QUICK = ["C06", "C09", "C10", "C15", "C16", "C20"]
 WHOLESALE_THOROUGH = ["C05", "C11", "C14", "C02", "C08", "C07"]
-BODIES = ["pack_trees", "pack_objectives", "ttp", "extremes"]
+BODIES = ["pack_trees", "pack_objectives", "ttp", "extremes", "spaces",
+          "ann_shapes"]
 
 
 # --------------------------------------------------------------- child side
@@ -345,6 +346,125 @@ def body_extremes(tier, out):
     out["executions"] = done
 
 
+def body_spaces(tier, out):
+    """
+    Extreme cell values that a public space might let through.
+
+    For every cell value at the ends of the storage type (and just outside
+    the legal range) the space's validate / from_str is asked first; only
+    what the space ACCEPTS is handed to the kernels (an accepted
+    out-of-range value makes them index outside their arrays).
+    """
+    from moptipyapps.ttp.errors import Errors
+    from moptipyapps.ttp.game_plan import GamePlan
+    from moptipyapps.ttp.game_plan_space import GamePlanSpace
+    from moptipyapps.ttp.plan_length import GamePlanLength
+    from props import ttp_common as T
+    cases = 0
+    for (n, rounds) in ((2, 2), (4, 2), (4, 1), (6, 1), (126, 1), (128, 1)):
+        ll = rounds * n - 1
+        try:
+            inst = T.make_instance(n, rounds, (1, ll, 1, ll, 0, ll))
+        except ValueError:
+            continue
+        space = GamePlanSpace(inst)
+        err = Errors(inst)
+        ln = GamePlanLength(inst)
+        info = np.iinfo(inst.game_plan_dtype)
+        vals = sorted({int(info.min), int(info.min) + 1, -n - 1, -n, n,
+                       n + 1, int(info.max) - 1, int(info.max)})
+        days = (n - 1) * rounds
+        cells = [(0, 0), (days - 1, n - 1), (days // 2, n // 2)]
+        for (d, t) in cells:
+            for v in vals:
+                gp = GamePlan(inst)
+                gp.fill(0)
+                gp[d, t] = v
+                cases += 1
+                accepted = []
+                try:
+                    space.validate(gp)
+                    accepted.append(gp)
+                except (ValueError, TypeError):
+                    pass
+                try:
+                    text = ";".join(str(int(q)) for q in
+                                    np.asarray(gp).flatten())
+                    accepted.append(space.from_str(text))
+                except (ValueError, TypeError, OverflowError):
+                    pass
+                for g in accepted:
+                    try:
+                        err.evaluate(g)
+                        ln.evaluate(g)
+                    except IndexError as e:
+                        out["violations"].append({
+                            "signature": "ttp kernels|IndexError on a plan "
+                                         "accepted by the game plan space",
+                            "text": f"n={n} rounds={rounds}: value {v} at "
+                                    f"cell ({d},{t}) is accepted by "
+                                    f"GamePlanSpace but makes a kernel "
+                                    f"leave its arrays: {e}",
+                            "replay": {"body": "spaces", "n": n,
+                                       "rounds": rounds, "value": v,
+                                       "cell": [d, t]}})
+                        out["cases"] = cases
+                        return
+    out["cases"] = cases
+    out["executions"] = cases
+
+
+def body_ann_shapes(tier, out):
+    """
+    Generated networks with one- and two-digit dimensions, built one after
+    the other in one process (forwards, then backwards) and executed with
+    guard-padded state / output arrays.
+    """
+    from moptipyapps.dynamic_control.controllers.ann import make_ann
+    ins = (2, 3, 21, 31)
+    outs = (1, 2, 11, 12)
+    shapes = [(i, o) for i in ins for o in outs]
+    cases = 0
+    for order in (shapes, shapes[::-1]):
+        for (i, o) in order:
+            c = make_ann(i, o, [3])
+            cases += 1
+            if c.state_dims != i or c.control_dims != o:
+                out["violations"].append({
+                    "signature": "make_ann|dimensions differ from the "
+                                 "request",
+                    "text": f"make_ann({i}, {o}, [3]) reports state_dims="
+                            f"{c.state_dims} control_dims={c.control_dims}",
+                    "replay": {"body": "ann_shapes", "shape": [i, o]}})
+                out["cases"] = cases
+                return
+            sb, st = _guarded(i, np.float64, fill=-77.0)
+            ob, ov = _guarded(o, np.float64, fill=-77.0)
+            st[:] = 0.25
+            params = np.full(c.param_dims, 0.125)
+            try:
+                c.controller(st, 0.5, params, ov)
+            except IndexError as e:
+                out["violations"].append({
+                    "signature": "make_ann|IndexError under bounds checking",
+                    "text": f"make_ann({i}, {o}, [3]) (after "
+                            f"{cases - 1} other architectures in this "
+                            f"process): {e}",
+                    "replay": {"body": "ann_shapes", "shape": [i, o]}})
+                out["cases"] = cases
+                return
+            if not (_guard_ok(sb, i, fill=-77.0)
+                    and _guard_ok(ob, o, fill=-77.0)):
+                out["violations"].append({
+                    "signature": "make_ann|write outside the output array",
+                    "text": f"make_ann({i}, {o}, [3]): guard cells damaged",
+                    "replay": {"body": "ann_shapes", "shape": [i, o]}})
+                out["cases"] = cases
+                return
+    out["cases"] = cases
+    out["executions"] = cases
+
+
 def child_main(argv):
     body, tier, outp = argv
     if os.environ.get("NUMBA_BOUNDSCHECK") != "1":
@@ -448,8 +568,15 @@ def run(ctx: Ctx) -> None:
                         f"NUMBA_BOUNDSCHECK=1: {' | '.join(lines[:3])[:600]}",
                         {"check": name})
                 elif p.returncode == 2:
-                    raise HarnessError(f"{name} under bounds checking: "
-                                       f"harness error\n" + text[-1500:])
+                    # that check could not run to the end (its own harness
+                    # error, reported by the check itself when run alone);
+                    # no bounds violation was seen in what it executed
+                    ctx.cap(f"the quick alphabet of {name} did not run to "
+                            "the end under bounds checking (harness error "
+                            "of that check)")
+                    ctx.log(f"{name} under bounds checking ended with a "
+                            "harness error: " + text[-300:].replace(
+                                "\n", " | "))
                 elif p.returncode == 1:
                     # a violation of the other property (not a bounds
                     # problem); it is reported by that property's own check
